@@ -133,6 +133,10 @@ def update_query_child_expression_if_in_query_context(node: SymbolicExpression,
             node._child_._child_ = AND(node._child_._child_, var)
         else:
             node._child_._child_ = var
+        # the new condition is linked below the descriptor in the graph as well: the per-evaluation reset and the
+        # invalidation of result caches walk the graph, and a variable without a domain inside the predicate (let(A)) takes
+        # the registry anew only when the reset reaches it.
+        node._child_._update_child_()
 
 
 def update_domain_and_kwargs_from_args(symbolic_cls: Type, /, *args, **kwargs):
